@@ -76,6 +76,18 @@ GUARDS = [
     ("math.exp(traced)", "lambda anp, x: x * __import__('math').exp(x)", (), "rev"),
     ("math.sqrt(traced) fwd", "lambda anp, x: x * __import__('math').sqrt(x)", (), "fwd"),
     ("numpy.float64(traced)", "lambda anp, x: x * __import__('numpy').float64(x)", (), "rev"),
+    # the float / complex scalar types exported by autograd.numpy are NumPy's own constructors: a traced argument must be refused, not silently unboxed
+    ("anp.float64(traced)", "lambda anp, x: x * anp.float64(x)", (), "rev"),
+    ("anp.float64(traced) fwd", "lambda anp, x: anp.sin(anp.float64(x))", (), "fwd"),
+    ("anp.float32(traced)", "lambda anp, x: x * anp.float32(x)", (), "rev"),
+    ("anp.float32(traced) fwd", "lambda anp, x: x * anp.float32(x)", (), "fwd"),
+    ("anp.float16(traced)", "lambda anp, x: x * anp.float16(x)", (), "rev"),
+    ("anp.double(traced)", "lambda anp, x: x * anp.double(x)", (), "rev"),
+    ("anp.single(traced)", "lambda anp, x: x * anp.single(x)", (), "rev"),
+    ("anp.longdouble(traced)", "lambda anp, x: x * anp.longdouble(x)", (), "rev"),
+    ("anp.complex128(traced)", "lambda anp, x: x * anp.real(anp.complex128(x))", (), "rev"),
+    ("anp.complex64(traced)", "lambda anp, x: x * anp.real(anp.complex64(x))", (), "rev"),
+    ("anp.float64(traced element)", "lambda anp, x: anp.sum(x) * anp.float64(x[0])", (2,), "rev"),
     ("'%f' % traced", "lambda anp, x: x * len('%f' % x)", (), "rev"),
     ("operator.index(traced)", "lambda anp, x: x * __import__('operator').index(x)", (), "rev"),
     ("float(traced 1-element array)", "lambda anp, x: x * float(x[0])", (1,), "rev"),
